@@ -128,6 +128,7 @@ func runC07(c *Ctx) {
 	c.Rule("C07.R2", "TBL", "extracted relation equals the documented lexicographic order", 1)
 	c.Rule("C07.R3", "COV", "every modifier field written by the option loaders is a term of the priority key", 12)
 	c.Rule("C07.R4", "WIRE", "selection sites replace the incumbent only if it is nil or the candidate is higher (receiver = candidate, argument = incumbent)", 3)
+	c.Rule("C07.R6", "EFF", "the option words counted by the key are only ever or-ed into while a rule is parsed", 1)
 	c.Rule("C07.R5", "WIRE", "selection scans have no early exit that returns a winner", 3)
 
 	a := &anchors{c: c, rule: "C07.R1"}
@@ -137,6 +138,8 @@ func runC07(c *Ctx) {
 	if a.bad {
 		return
 	}
+	checkOptionWordMonotone(c, "C07.R6", "disabledOptions", 0,
+		"a negated modifier overwrites the ones parsed before it ($~third-party,~match-case keeps only the last): the added modifier does not raise the rule, so the selected rule can be outranked")
 	g := NewGate(c.P)
 	s := g.Eval(ihp)
 	u := g.U
